@@ -227,3 +227,22 @@ func init() {
 	num("Float", reflect.Float32, reflect.Float64)
 	num("Bool", reflect.Bool)
 }
+
+// encoding/gob cannot be executed symbolically (reflection and unsafe throughout). Stub, stated as an
+// assumption wherever it is used: encoding a node tree fails (twig's nodes have no exported fields, so
+// the native encoder fails after the type header as well) and decoding always fails, which makes
+// LoadFromCompiled fall back to parsing the stored source — the path the native code takes too.
+func init() {
+	intrinsics["encoding/gob.NewEncoder"] = func(e *Engine, a []Value) Value {
+		c := new(Value)
+		*c = Struct{a[0]}
+		return c
+	}
+	intrinsics["encoding/gob.NewDecoder"] = intrinsics["encoding/gob.NewEncoder"]
+	intrinsics["(*encoding/gob.Encoder).Encode"] = func(e *Engine, a []Value) Value {
+		return e.mkError("gob: stub: type has no exported fields")
+	}
+	intrinsics["(*encoding/gob.Decoder).Decode"] = func(e *Engine, a []Value) Value {
+		return e.mkError("gob: stub: decoding is outside the symbolic model")
+	}
+}
